@@ -106,4 +106,46 @@ CHECKS = {
         "text": "For each kind generated kwargs are written as TOML and loaded; the loaded and the constructed component must give identical params(limits=True) and solve() tables in the same phase-switched probe system (absent optional keys = constructor defaults). Files with a mandatory key removed must raise KeyError and files with a wrongly typed value ValueError (generic loader); LinReg's ig/iq spellings are both exercised.",
         "note": "TOML arrays written homogeneous. LinReg's own loader has no type gate (property excludes it from that clause).",
     },
+    "C14": {
+        "level": "exploration",
+        "ref": "DESIGN.md section 2, C14/C15/C16 (edit-history state machine)",
+        "technique": "model-based stateful property testing (Hypothesis RuleBasedStateMachine over the edit API) with a well-formedness invariant after every step",
+        "text": "Random histories of add_source/add_comp/change_comp/del_comp/set_*_phases calls, with arguments drawn from the current model so that valid calls and every kind of collision are frequent, are applied to the real system; after every step - accepted or rejected - the invariant (unique and disjoint names/rails, consistent registries, roots = Sources, childless loads, single multi-parent PMux, only links add_comp accepts, save() lists exactly the components) is checked on the real system.",
+        "note": "Reads the graph and registries (private) and cross-checks the public save() document. Histories are bounded (25/40 steps).",
+    },
+    "C15": {
+        "level": "fault_enumeration",
+        "ref": "DESIGN.md section 2, C14/C15/C16",
+        "technique": "model-based stateful property testing; every class of rejected call is generated on purpose and each rejection is checked by full before/after snapshot comparison (Hypothesis RuleBasedStateMachine)",
+        "text": "The same machine takes a snapshot (tree text, params, phases, save document, solve table or exception, registries, graph, component parameters) before every call; whenever a call raises, the snapshot after it must be identical, and the history continues on that state. The classes of rejected calls (unknown / rail-valued targets, duplicate names and rails, incompatible kinds, last source, source without children, malformed phase arguments, ...) are counted in the evidence; fault enumeration over those classes x reachable states.",
+        "note": "Any exception counts as a rejection; only a changed snapshot is a violation (I10: unvalidated phase-configuration content is not expected to raise).",
+    },
+    "C16": {
+        "level": "exploration",
+        "ref": "DESIGN.md section 2, C14/C15/C16",
+        "technique": "model-based stateful property testing: reference model of the documented effect of every edit; differential comparison of all reports against systems rebuilt from the model in two insertion orders (Hypothesis RuleBasedStateMachine)",
+        "text": "A model applies the documented effect of every accepted edit. After accepted steps all eight reports must succeed and list exactly the model's components, and must agree (values at 1e-9, tree paths, save document) with a system built from scratch from the model, in canonical and in permuted order; C07's aggregate oracle runs on the edited system. This is what makes results history- and order-independent.",
+        "note": "Where the documented effect is undefined (deleting, without children, a mux input whose parent is already an input) only 'reports succeed and list the components' is required. The model is my reading of the docstrings.",
+    },
+    "C17": {
+        "level": "fault_enumeration",
+        "ref": "DESIGN.md section 2, C17",
+        "technique": "property-based testing of call interleavings with snapshot invariance + exhaustive enumeration of the failing callback index k and of solver-failure steps for batt_life (Hypothesis + enumeration)",
+        "text": "Drawn interleavings of the eleven analysis calls must leave the full snapshot and every passed-in object unchanged and every solve() table equal to the first. For batt_life a terminating battery model is run once to learn its n callback calls and then re-run with an exception injected at every k in 0..n-1 (three exception types) and with the solver made to fail from every step: afterwards the battery's vo/rs in params() and the snapshot must be the original.",
+        "note": "exhaustive on the fault index axis for each generated (system, model); systems and models themselves are sampled.",
+    },
+    "C18": {
+        "level": "exploration",
+        "ref": "DESIGN.md section 2, C18",
+        "technique": "property-based testing: recording callbacks + reference model of the depletion loop, expected current from an independently built and solved copy of the system (Hypothesis)",
+        "text": "Scripted battery models (data: capacity, voltage and resistance curves) record every callback argument. A model of the loop predicts, per step, the phase (cycling in declared order), the duration and the battery current (from a freshly built copy of the system with the battery's present voltage and impedance, solved for that phase through the public solve()), the log rows, the strictly increasing time and the stopping point; non-Source names must raise ValueError.",
+        "note": "Current compared at 3e-5 relative (batt_life's internal tolerances). Positive battery voltages only.",
+    },
+    "C19": {
+        "level": "exploration",
+        "ref": "DESIGN.md section 2, C19",
+        "technique": "property-based testing: DOT output of make_diag/make_hdiag parsed back and compared with the spec, the configuration precedence rule and losses recomputed from solve(); SI formatter checked directly (Hypothesis)",
+        "text": "For generated systems, groups and three-level configuration overrides the Graphviz source is parsed back: node set, directed edge set, cluster membership, every node/cluster/edge/graph attribute by precedence, unchanged caller configuration; heat labels within 0.5 % of the duration-weighted loss, colours decoding to loss/maxloss, extreme colours for the largest/zero loss, legend showing the maximum.",
+        "note": "Checks the DOT source handed to Graphviz, not rendered pixels.",
+    },
 }
